@@ -42,14 +42,18 @@ EquivValPrograms == { Set(1, 1), Set(1, 2), Cas(1, 1, 1) }
 \* the smallest setting in which a change can be both in a subscriber's snapshot and delivered to it
 AttackLossyPrograms == { IncUp(1, 1), Add(1, 2), Del(1) }
 AbsentStore == { [i \in {1} |-> Absent] }
-KindsUo == { [uo |-> TRUE, lossy |-> FALSE, masked |-> FALSE], [uo |-> FALSE, lossy |-> FALSE, masked |-> FALSE] }
+KindsUo == { [uo |-> TRUE, lossy |-> FALSE, masked |-> FALSE, inc |-> FALSE], [uo |-> FALSE, lossy |-> FALSE, masked |-> FALSE, inc |-> FALSE] }
 GcPrograms == { Set(1, 1), IncUp(1, 1), Upsert(1, 2) }
-KindLossySeed == { [uo |-> FALSE, lossy |-> TRUE, masked |-> FALSE] }
+KindLossySeed == { [uo |-> FALSE, lossy |-> TRUE, masked |-> FALSE, inc |-> FALSE] }
 \* two subscribers of which one has a read mask (what it is handed is a projection made for it alone)
-KindsMask == { [uo |-> FALSE, lossy |-> FALSE, masked |-> TRUE], [uo |-> FALSE, lossy |-> FALSE, masked |-> FALSE],
-               [uo |-> TRUE, lossy |-> FALSE, masked |-> TRUE] }
-Kinds == { [uo |-> FALSE, lossy |-> FALSE, masked |-> FALSE], [uo |-> TRUE, lossy |-> FALSE, masked |-> FALSE] }
-KindsLossy == { [uo |-> FALSE, lossy |-> TRUE, masked |-> FALSE], [uo |-> TRUE, lossy |-> TRUE, masked |-> FALSE], [uo |-> FALSE, lossy |-> FALSE, masked |-> FALSE] }
+KindsMask == { [uo |-> FALSE, lossy |-> FALSE, masked |-> TRUE, inc |-> FALSE], [uo |-> FALSE, lossy |-> FALSE, masked |-> FALSE, inc |-> FALSE],
+               [uo |-> TRUE, lossy |-> FALSE, masked |-> TRUE, inc |-> FALSE] }
+\* two subscribers of which one may carry an include predicate ("the value is odd")
+KindsInc == { [uo |-> FALSE, lossy |-> FALSE, masked |-> FALSE, inc |-> TRUE], [uo |-> FALSE, lossy |-> FALSE, masked |-> FALSE, inc |-> FALSE],
+              [uo |-> TRUE, lossy |-> FALSE, masked |-> FALSE, inc |-> TRUE] }
+IncPrograms == { Set(1, 1), Set(1, 2), Upsert(1, 3), IncUp(1, 1), Del(1) }
+Kinds == { [uo |-> FALSE, lossy |-> FALSE, masked |-> FALSE, inc |-> FALSE], [uo |-> TRUE, lossy |-> FALSE, masked |-> FALSE, inc |-> FALSE] }
+KindsLossy == { [uo |-> FALSE, lossy |-> TRUE, masked |-> FALSE, inc |-> FALSE], [uo |-> TRUE, lossy |-> TRUE, masked |-> FALSE, inc |-> FALSE], [uo |-> FALSE, lossy |-> FALSE, masked |-> FALSE, inc |-> FALSE] }
 
 W1 == {1}  W2 == {1, 2}  W3 == {1, 2, 3}
 S0 == {}   S1 == {1}     S2 == {1, 2}
